@@ -302,7 +302,11 @@ int main(void)
 			cur_sid = sid;
 			if (!strcmp(w1, "maxk")) st = of_get_control_parameter(s->ses, OF_CTRL_GET_MAX_K, &v, sizeof v);
 			else if (!strcmp(w1, "maxn")) st = of_get_control_parameter(s->ses, OF_CTRL_GET_MAX_N, &v, sizeof v);
-			else { st = of_get_control_parameter(s->ses, OF_CRTL_LDPC_STAIRCASE_IS_LAST_SYMBOL_NULL, &bv, sizeof bv); v = bv ? 1 : 0; }
+			else {
+				/* the flag describes a configured session; a session without (accepted) parameters is not asked */
+				if (!s->configured) { cur_sid = -1; printf("\n@bad-op unconfigured\n"); goto next; }
+				st = of_get_control_parameter(s->ses, OF_CRTL_LDPC_STAIRCASE_IS_LAST_SYMBOL_NULL, &bv, sizeof bv); v = bv ? 1 : 0;
+			}
 			cur_sid = -1;
 			printf("\n@ok st=%s v=%u\n", stname(st), st == OF_STATUS_OK ? v : 0); goto next;
 		}
